@@ -34,7 +34,7 @@ var (
 
 func TestMain(m *testing.M) {
 	glue.SilenceKlog()
-	pool = gen.NewPool(glue.NewPoolArgs())
+	pool = gen.NewPool(glue.NewCollectorPoolArgs())
 	if rp := ev.LoadReplay(); rp != nil {
 		ev.RunReplay(rp, runCase)
 	}
